@@ -308,7 +308,7 @@ func hasDeclStmt(stmts []ast.Stmt) bool {
 
 func identicalWithoutTypeParam(x, y types.Type) bool {
 	unwrapTyParam := func(ty types.Type) types.Type {
-		if named, ok := ty.(*types.Named); ok {
+		if named, ok := unalias(ty).(*types.Named); ok {
 			return named.Obj().Type()
 		}
 		return nil
